@@ -107,24 +107,8 @@ fn c13x_parse_strings_len5_small_radix() {
 }
 
 
-/// The whole u64 accumulation path: `can_not_overflow` admits exactly radix <= 16 and length <= 16, so unwinding the
-/// digit loop 17 times with unwinding assertions on covers EVERY input of that path (a proof, not a bound): the
-/// value is the exact integer (< 16^16 = 2^64, checked in u128) converted once to double.
-// FN: from_js_str_radix (u64 path complete: radix <= 16, length <= 16 is the code's own guard)
-#[kani::proof_for_contract(from_js_str_radix)]
-#[kani::unwind(18)]
-fn c13x_parse_full_u64_path() {
-    let b: [u8; 16] = kani::any();
-    let n: usize = kani::any();
-    kani::assume(n <= 16);
-    let radix: u8 = kani::any();
-    kani::assume(radix <= 16);
-    let src = JsStr::latin1(&b[..n]);
-    kani::assume(pre(src, radix));
-    kani::cover!(n == 16 && radix == 16 && s_parse(src, radix).is_some());
-    let r = from_js_str_radix(src, radix);
-    assert!(same(r, s_parse(src, radix)));
-}
+// NOTE: a harness covering the WHOLE u64 accumulation path (length <= 16, radix <= 16 - the code's own guard, which
+// would make it a proof rather than a bound) was run for 2 hours without a verdict (attempts/c13_full_u64_path.rs).
 
 #[kani::proof]
 #[kani::unwind(3)]
